@@ -141,11 +141,69 @@ def selfies_code_objects():
     return out
 
 
+def compute_shared_sites(codes):
+    """Bytecode offsets at which selfies code touches process-wide mutable state, computed from
+    the code under test itself (so state introduced by a change is found as well):
+      * LOAD/STORE/DELETE_GLOBAL of a module global that is a mutable container (dict, list, set,
+        deque, ...) or a memoising wrapper (has cache_info), or that some function rebinds
+        with a `global` statement;
+      * entry of a function wrapped by a memoising wrapper (lru_cache'd functions and properties).
+    The 'shared' scheduling policy pre-empts right before these instructions - the points where
+    check-then-act sequences on shared state can be split."""
+    import collections
+    import dis
+    mutable = (dict, list, set, bytearray, collections.deque)
+    by_file = {}
+    wrapped = set()
+
+    def note_wrapper(v):
+        if isinstance(v, property):
+            v = v.fget
+        if hasattr(v, "cache_info") and hasattr(v, "__wrapped__"):
+            c = getattr(v.__wrapped__, "__code__", None)
+            if c is not None:
+                wrapped.add(c)
+
+    for name, m in sorted(sys.modules.items()):
+        if m is None or not (name == "selfies" or name.startswith("selfies.")):
+            continue
+        f = getattr(m, "__file__", None)
+        if f:
+            by_file[os.path.abspath(f)] = vars(m)
+        for v in list(vars(m).values()):
+            note_wrapper(v)
+            if isinstance(v, type) and getattr(v, "__module__", "").startswith("selfies"):
+                for a in list(vars(v).values()):
+                    note_wrapper(a)
+    stored = collections.defaultdict(set)
+    ins_cache = {}
+    for co in codes:
+        ins_cache[co] = list(dis.get_instructions(co))
+        for ins in ins_cache[co]:
+            if ins.opname in ("STORE_GLOBAL", "DELETE_GLOBAL"):
+                stored[co.co_filename].add(ins.argval)
+    sites = {}
+    for co in codes:
+        g = by_file.get(os.path.abspath(co.co_filename), {})
+        offs = set()
+        for ins in ins_cache[co]:
+            if ins.opname in ("LOAD_GLOBAL", "STORE_GLOBAL", "DELETE_GLOBAL"):
+                v = g.get(ins.argval)
+                if ins.argval in stored[co.co_filename] or isinstance(v, mutable) or hasattr(v, "cache_info"):
+                    offs.add(ins.offset)
+        if co in wrapped:
+            offs.add(2)
+        if offs:
+            sites[co] = frozenset(offs)
+    return sites
+
+
 def instrument():
     root = os.path.join(env.REPO, "selfies") + os.sep
     _state["root"] = root
     mon.use_tool_id(TOOL, "schedsim")
     _state["codes"] = selfies_code_objects()
+    _state["shared_sites"] = compute_shared_sites(_state["codes"])
     for co in _state["codes"]:
         mon.set_local_events(TOOL, co, mon.events.INSTRUCTION)
         _state["instrumented"] += 1
@@ -241,6 +299,9 @@ class Sched:
         self.overlap = 0
         self.sites = set()
         self.miss_calls = 0
+        self._shared = _state.get("shared_sites", {})
+        self._offset = -1
+        self.shared_switches = 0
         self._hot = {}
         self.stalls_fired = 0
         self.missing = [None] * n       # symbol a thread is computing on the cache-miss path
@@ -317,6 +378,7 @@ class Sched:
             self.sems[tid].acquire()
         if self.gran_line and offset not in _line_starts(code):
             return
+        self._offset = offset
         to = self.decide(tid, code)
         if to is not None and to != tid:
             # everything a RecursionError could interrupt (Python-level calls) comes first ...
@@ -373,6 +435,20 @@ class Sched:
             cands = self.runnable()
             best = max(cands, key=lambda i: self.prio[i])
             return best if best != tid else None
+        if kind == "shared":
+            # pre-empt right before an access to process-wide mutable state (see compute_shared_sites)
+            offs = self._shared.get(code)
+            if offs is not None and self._offset in offs:
+                if self.rng.random() < self.policy["q"]:
+                    cands = self.runnable(exclude=tid)
+                    if cands:
+                        self.shared_switches += 1
+                        return self.rng.choice(cands)
+            elif self.rng.random() < self.p:
+                cands = self.runnable(exclude=tid)
+                if cands:
+                    return self.rng.choice(cands)
+            return None
         if kind == "pct":
             if self.change and self.step >= self.change[0]:
                 self.change.pop(0)
@@ -503,7 +579,7 @@ def run(sf, spec):
         "steps": S.step, "tsteps": S.tsteps, "switches": S.switches, "exits": S.exits, "first": first,
         "lock_ops": S.lock_ops, "late": S.late, "window_switches": S.window_switches,
         "overlap": S.overlap, "sites": sorted(S.sites), "miss_calls": S.miss_calls,
-        "double_miss": S.double_miss, "double_aug": S.double_aug, "stalls_fired": S.stalls_fired,
+        "double_miss": S.double_miss, "double_aug": S.double_aug, "stalls_fired": S.stalls_fired, "shared_switches": S.shared_switches,
         "digest": h.hexdigest(),
     }
 
